@@ -65,7 +65,7 @@ func genC10a(t *rapid.T) c10aCase {
 	class := map[string]bool{}
 	n := rapid.IntRange(0, 8).Draw(t, "items")
 	for i := 0; i < n; i++ {
-		switch rapid.IntRange(0, 9).Draw(t, "kind") {
+		switch rapid.IntRange(0, 10).Draw(t, "kind") {
 		case 0:
 			k := rapid.IntRange(1, 60).Draw(t, "rn")
 			c.Stream = append(c.Stream, rapid.SliceOfN(rapid.Byte(), k, k).Draw(t, "random")...)
@@ -104,10 +104,25 @@ func genC10a(t *rapid.T) c10aCase {
 				c.Stream = append(c.Stream, frame(rapid.SampledFrom([]uint16{0x0002, 0x0200, 0x0100, 0x9212, 0xffff}).Draw(t, "otherid"), rapid.SliceOfN(rapid.Byte(), 0, 30).Draw(t, "otherbody"))...)
 			}
 			class["hostile_control_frame"] = true
+		case 8: // a chunk header (any dialect) that stops a few bytes short of its end, as the only thing ever sent
+			name := rapid.SliceOfN(rapid.ByteRange(0x41, 0x5a), 0, 52).Draw(t, "hname")
+			h := ref.Chunk(c.Dialect, name, 0, nil)
+			short := rapid.IntRange(1, 3).Draw(t, "short")
+			if short < len(h) {
+				h = h[:len(h)-short]
+			}
+			if len(c.Stream) == 0 || rapid.Bool().Draw(t, "alone") {
+				c.Stream = h
+			} else {
+				c.Stream = append(c.Stream, h...)
+			}
+			class["chunk_header_cut_short"] = true
 		case 7: // fragmented control frame (package fields present)
 			s := ref.Spec{ID: 0x1210, PhoneBCD: phoneFor(false), Fragmented: true, Total: uint16(rapid.IntRange(0, 3).Draw(t, "tot")), No: uint16(rapid.IntRange(0, 4).Draw(t, "no")), Body: []byte{1, 2, 3}}
 			c.Stream = append(c.Stream, s.Build()...)
 			class["fragmented_control_frame"] = true
+		case 9: // (a complete valid upload, below)
+			fallthrough
 		default: // a complete valid upload
 			for _, v := range valid {
 				c.Stream = append(c.Stream, v...)
